@@ -53,6 +53,8 @@ var Check = &run.Check{
 		"groupId/artifactId/scope contain no ${property}; interpolation appears only in versions, which are not asserted",
 		"a map-notation entry may be skipped (statement) or extracted correctly at its position; nothing else",
 		"one dependencies block per build file; one coordinate per statement",
+		"directories above the analysed directory are not part of the project, whatever they are called; a byte-identical copy of the pom under target/classes/META-INF/maven/ may be ignored or reported as a second pom (both readings accepted, nothing else)",
+		"the dep main is given the project directory in one of nine spellings (absolute, with trailing slash, relative, ./rel, ., .., sub/.., ../name); all name the same directory",
 		"a project has one build file, or (2 of 16 cases) a pom.xml and a build.gradle side by side: the declared dependencies are those of both files; inside one file the report must keep declaration order, how the two files interleave is not decided (entries are attributed to their file by artifact id, which the generator keeps disjoint)",
 		"'occurs in an import' is substring containment in the qualified name written after import [static]",
 	},
@@ -114,6 +116,15 @@ func toDeps(in []core_domain.CodeDependency) []oracle.Dep {
 func writeProject(dir string, p *buildgen.Project) (javaFiles []string, err error) {
 	for _, b := range p.Builds() {
 		if err = ioutil.WriteFile(filepath.Join(dir, b.FileName), []byte(b.Text), 0o644); err != nil {
+			return
+		}
+	}
+	if p.OutputCopy != "" {
+		cp := filepath.Join(dir, filepath.FromSlash(p.OutputCopy))
+		if err = os.MkdirAll(filepath.Dir(cp), 0o755); err != nil {
+			return
+		}
+		if err = ioutil.WriteFile(cp, []byte(p.Build.Text), 0o644); err != nil {
 			return
 		}
 	}
@@ -285,8 +296,22 @@ func runCase(c *run.Ctx, o *run.Outcome) {
 		}
 	}
 
-	dir := c.Scratch()
-	javaFiles, err := writeProject(dir, p)
+	// the project directory lies below the scratch directory, in a share of the cases below directories named
+	// build / target / out / tmp / dist: directories above the analysed one are not part of the project
+	scratch := c.Scratch()
+	dir := filepath.Join(scratch, filepath.FromSlash(p.Location))
+	if above := filepath.ToSlash(filepath.Dir(p.Location)); above != "." {
+		o.Count("project_below_"+strings.ReplaceAll(above, "/", "_"), 1)
+		o.Count("projects_below_named_directories", 1)
+	}
+	if p.OutputCopy != "" {
+		o.Count("projects_with_pom_copy_in_target", 1)
+	}
+	err := os.MkdirAll(dir, 0o755)
+	var javaFiles []string
+	if err == nil {
+		javaFiles, err = writeProject(dir, p)
+	}
 	if err != nil {
 		o.SetInconclusive("cannot write the project: " + err.Error())
 		return
@@ -345,6 +370,9 @@ func runCase(c *run.Ctx, o *run.Outcome) {
 	o.Count("unused_entries_observed", len(obsUnused))
 	mm, st = oracle.CheckUnused(p, obsUnused)
 	count(o, "unused", st)
+	if st.CopyReadTwice {
+		o.Count("pom_copy_in_target_reported_as_second_pom", 1)
+	}
 	for _, m := range mm {
 		o.Violate(m.Sig, "AnalysisPath: %s", m.Msg)
 	}
@@ -358,7 +386,11 @@ func runCase(c *run.Ctx, o *run.Outcome) {
 			o.SetInconclusive("dep main not built: " + depBin)
 			return
 		}
-		res := common.RunCLI(depBin, dir, nil, "deps", "-p", ".")
+		// the analysed directory is named in one of the legal ways (absolute, relative, ".", "..", trailing slash, ...)
+		cwd, arg, kind := common.SpellRoot(c.Index/cliEvery(c.Tier), dir, scratch)
+		o.Count("cli_root_spelled_"+kind, 1)
+		witness["cli_cwd"], witness["cli_arg"], witness["cli_root_kind"] = cwd, arg, kind
+		res := common.RunCLI(depBin, cwd, nil, "deps", "-p", arg)
 		witness["cli_stdout"] = res.Stdout
 		witness["cli_stderr"] = head(res.Stderr)
 		switch {
@@ -369,12 +401,12 @@ func runCase(c *run.Ctx, o *run.Outcome) {
 			o.Violate("cli/deps-sub-command-missing", "`coca-dep deps -p .`: the dep main has no deps sub-command: %s", head(res.Stderr+res.Stdout))
 			return
 		case res.ExitCode != 0 || strings.Contains(res.Stderr, "panic:") || strings.Contains(res.Stderr, "fatal error"):
-			o.Violate("cli-crash", "`coca-dep deps -p .` exit %d: %s", res.ExitCode, head(res.Stderr))
+			o.Violate("cli-crash/"+kind, "`coca-dep deps -p %s` (cwd %s) exit %d: %s", arg, cwd, res.ExitCode, head(res.Stderr))
 			return
 		}
 		rows, ok := parseTable(res.Stdout)
 		if !ok {
-			o.Violate("cli-no-table", "`coca-dep deps -p .` printed no `unused` table: %s", head(res.Stdout))
+			o.Violate("cli-no-table/"+kind, "`coca-dep deps -p %s` (cwd %s) printed no `unused` table: %s", arg, cwd, head(res.Stdout))
 			return
 		}
 		witness["cli_rows"] = rows
@@ -382,11 +414,11 @@ func runCase(c *run.Ctx, o *run.Outcome) {
 		mm, st = oracle.CheckUnused(p, rows)
 		count(o, "cli", st)
 		for _, m := range mm {
-			sig := "cli/" + m.Sig
+			sig := "cli/" + kind + "/" + m.Sig
 			if m.Shared {
 				sig = m.Sig
 			}
-			o.Violate(sig, "dep main table: %s", m.Msg)
+			o.Violate(sig, "dep main table (`deps -p %s`, root spelled %s): %s", arg, kind, m.Msg)
 		}
 	}
 
